@@ -1590,3 +1590,100 @@ M.contract(P_CSDV + ':CommandSdv.new_with_additional_argument_list', inline=True
                     and is_concat(arg_elements(result._arguments), arg_elements(self._arguments),
                                   additional_arguments._elements, j)},
            raises_only=())
+
+
+# ============================================================================== parsing: program by reference, shell command
+
+from exactly_lib.impls.types.program.parse import parse_with_reference_to_program, parse_shell_command
+from exactly_lib.impls.types.program.command import driver_sdvs
+from exactly_lib.impls.types.string_ import parse_string
+from exactly_lib.symbol import symbol_syntax
+from exactly_lib.section_document.element_parsers.instruction_parser_exceptions import \
+    SingleInstructionInvalidArgumentException
+
+SYMBOL_STRING = 'consume_mandatory_unquoted_string'
+ARGS_PARSED = 'arguments-parsed'
+REST_OF_LINE = 'consume_remaining_part_of_current_line_as_string'
+
+
+class TokenParserI(Interface):
+    """the token stream (C09)"""
+    methods = {SYMBOL_STRING: Method(returns=Str, event=SYMBOL_STRING),
+               REST_OF_LINE: Method(returns=Str, event=REST_OF_LINE),
+               'consume_current_line_as_string_of_remaining_part_of_current_line': Method(returns=Str, event=REST_OF_LINE),
+               'require_is_not_at_eol': Method(may_raise=(lambda interp, o: SingleInstructionInvalidArgumentException('eol'),))}
+
+
+class ArgumentsParserI(Interface):
+    """parse_arguments.parser(): one element per written argument (C09)"""
+    methods = {'parse_from_token_parser': Method(returns=ARGUMENTS_SDV, event=ARGS_PARSED)}
+
+
+M.contract('exactly_lib.symbol.symbol_syntax:is_symbol_name', trusted=True, params=dict(s=Str), returns=Bool)
+M.trust('symbol_syntax.is_symbol_name(s): syntax check of a symbol name (C08)')
+
+M.contract('exactly_lib.impls.types.program.parse.parse_with_reference_to_program:_ParseAsProgram.parse_from_token_parser',
+           params=dict(self=Inst(parse_with_reference_to_program._ParseAsProgram,
+                                 _consume_last_line_if_is_at_eol_after_parse=Const(False),
+                                 _consume_last_line_if_is_at_eof_after_parse=Const(False),
+                                 _arguments_parser=Iface(ArgumentsParserI)),
+                       parser=Iface(TokenParserI)),
+           returns=Any_,
+           ensures={'`@ SYMBOL ARGUMENTS`: a reference to the program SYMBOL whose additional components are exactly '
+                    'the written arguments (no stdin, no transformations): they are appended AFTER the referenced '
+                    'program by ProgramSdvForSymbolReference.resolve': lambda result, trace:
+           type(result) is ProgramSdvForSymbolReference
+           and result._symbol_name == _returned(trace, SYMBOL_STRING)
+           and result._accumulated_components.arguments is _returned(trace, ARGS_PARSED)
+           and is_empty_seq(result._accumulated_components.stdin)
+           and is_empty_seq(result._accumulated_components.transformations)},
+           raises={SingleInstructionInvalidArgumentException: {}},
+           raises_only=())
+
+
+def _string_sdv_from_string(interp, args, kwargs):
+    """assumed: parse_string.string_sdv_from_string(s) denotes the string written in s, symbol references
+    substituted (C09); ghost: g_source = s"""
+    r = new_opaque(interp, StringSdvOfTextI, 'string-sdv')
+    r._pv_attrs['g_source'] = args[0]
+    return r
+
+
+class StringSdvOfTextI(Interface):
+    attrs = {'g_source': Str, 'references': Any_}
+
+
+M.model(parse_string.string_sdv_from_string, _string_sdv_from_string)
+M.trust('parse_string.string_sdv_from_string(text) gives the StringSdv denoted by `text` (symbol references in it are '
+        'substituted, nothing else is interpreted: C09)')
+
+SHELL_PARSER = Inst(parse_shell_command._ParseAsCommand, _consume_last_line_if_is_at_eol_after_parse=Bool,
+                    _consume_last_line_if_is_at_eof_after_parse=Bool)
+
+
+def is_shell_command_of_rest_of_line(command_sdv, trace):
+    return type(command_sdv) is CommandSdv \
+        and type(command_sdv._driver) is driver_sdvs.CommandDriverSdvForShell \
+        and command_sdv._driver._command_line.g_source == _returned(trace, REST_OF_LINE) \
+        and is_empty_seq(arg_elements(command_sdv._arguments))
+
+
+M.contract('exactly_lib.impls.types.program.parse.parse_shell_command:_ParseAsCommand.parse_from_token_parser',
+           params=dict(self=SHELL_PARSER, parser=Iface(TokenParserI)), returns=Any_,
+           ensures={'`$ COMMAND LINE`: the rest of the line, VERBATIM, AS ONE STRING, is the shell command line; no '
+                    'arguments': lambda result, trace: is_shell_command_of_rest_of_line(result, trace)},
+           raises={SingleInstructionInvalidArgumentException: {}},
+           raises_only=())
+
+M.contract('exactly_lib.impls.types.program.parse.parse_shell_command:_ParseAsProgram.parse_from_token_parser',
+           params=dict(self=Inst(parse_shell_command._ParseAsProgram,
+                                 _consume_last_line_if_is_at_eol_after_parse=Const(False),
+                                 _consume_last_line_if_is_at_eof_after_parse=Bool, _command_parser=SHELL_PARSER),
+                       parser=Iface(TokenParserI)), returns=Any_,
+           ensures={'a program of the shell command with nothing accumulated': lambda result, trace:
+           type(result) is ProgramSdvForCommand and is_shell_command_of_rest_of_line(result._command, trace)
+           and is_empty_seq(result._accumulated_components.stdin)
+           and is_empty_seq(arg_elements(result._accumulated_components.arguments))
+           and is_empty_seq(result._accumulated_components.transformations)},
+           raises={SingleInstructionInvalidArgumentException: {}},
+           raises_only=())
